@@ -185,7 +185,6 @@ Rollback(m, cbs) == IF cbs = 0 THEN m
 Process(b, evs, f) ==
   /\ nops < MaxOps
   /\ nops' = nops + 1
-  /\ hist' = Append(hist, [op |-> "process", num |-> b, evs |-> evs, fault |-> f])
   /\ UNCHANGED lost
   /\ IF mem.halted
      THEN /\ lastRes' = "inconsistent" /\ UNCHANGED <<blk, aroots, rht, uroots, urht, gers, mem>>
@@ -208,6 +207,9 @@ Process(b, evs, f) ==
                /\ lastRes' = IF a.halt THEN "inconsistent"
                              ELSE IF a.f5 THEN "errorF5"                 \* known finding F5: the block can never be stored
                              ELSE IF f.kind = "none" THEN "errorNoFault" ELSE "error"
+  \* the model's own prediction of ProcessBlock's answer travels with the exported behaviour (conformance of this
+  \* specification with the code is measured on it: checks/store_common.py, evidence field model_conformance)
+  /\ hist' = Append(hist, [op |-> "process", num |-> b, evs |-> evs, fault |-> f, exp |-> lastRes'])
 
 RemovesGer(evs, x) == \E i \in DOMAIN evs : evs[i].t = "gerrm" /\ evs[i].x = x
 InsertsGer(evs, x) == \E i \in DOMAIN evs : evs[i].t = "ger" /\ evs[i].x = x
